@@ -40,6 +40,17 @@ def _work(args):
                 'backend': ob.backend, 'time_s': round(ob.time_s, 4), 'origin': ob.origin, 'path_kind': ob.path_kind,
                 'route': ob.route, 'model': ob.model, 'reason': ob.reason,
             })
+        # vacuity guard: some exit path must be satisfiable together with the preconditions / assumptions
+        exits = [ob for ob in eng.obligations if ob.path_kind in ('return', 'raise', 'table', 'lemma')]
+        seen_pc = set()
+        feasible = None
+        for ob in exits:
+            key_pc = len(ob.pc), id(ob.pc[-1]) if ob.pc else 0
+            r = eng.feasible(ob.pc, 3000)
+            if r != 'unsat':
+                feasible = r
+                break
+        res['vacuity'] = 'ok' if (feasible or not exits) else 'ALL-EXIT-PATHS-INFEASIBLE'
     except OutOfSubset as e:
         res['status'] = 'out_of_subset'
         res['error'] = str(e)
